@@ -1,6 +1,9 @@
 package main
 
 import (
+	"net"
+	"sync"
+	"bytes"
 	"context"
 	"crypto/ecdsa"
 	"crypto/elliptic"
@@ -134,7 +137,45 @@ func loadAndReport(t *traceWriter, file string, data []byte) {
 	t.line("CFM file=%s n=%d => aslogmap=%s feeders=%d witness=%s", file, len(cfg.Logs), am, nFeed, wit)
 }
 
+// mainStartsOnShipped runs omniwitness.Main on the configuration that is compiled into the binary, exactly the path the
+// production binary takes to load it (no feeders, no bastion, no distributor: only loading and the HTTP server), and
+// reports whether it is still serving after a moment.
+func mainStartsOnShipped(t *traceWriter) {
+	k := genWitKey(rand.New(rand.NewSource(11)), "cfg-main-wit", "cosigv1")
+	ln, err := net.Listen("tcp", "127.0.0.1:0")
+	if err != nil {
+		panic(err)
+	}
+	ctx, cancel := context.WithCancel(context.Background())
+	done := make(chan error, 1)
+	go func() {
+		defer func() {
+			if r := recover(); r != nil {
+				done <- fmt.Errorf("panic: %v", r)
+			}
+		}()
+		done <- omniwitness.Main(ctx, omniwitness.OperatorConfig{WitnessKeys: []note.Signer{k.signer}, WitnessVerifier: k.verif}, inmemory.NewPersistence(), ln,
+			&http.Client{Transport: failingTransport{}})
+	}()
+	alive, msg := 1, ""
+	select {
+	case err := <-done:
+		alive, msg = 0, fmt.Sprint(err)
+	case <-time.After(400 * time.Millisecond):
+	}
+	cancel()
+	if alive == 1 {
+		select {
+		case <-done:
+		case <-time.After(5 * time.Second):
+		}
+	}
+	ln.Close()
+	t.line("OMS config=shipped => alive=%d err=%s", alive, hx([]byte(msg)))
+}
+
 func scenarioConfig(t *traceWriter, rng *rand.Rand) {
+	mainStartsOnShipped(t)
 	loadAndReport(t, "logs.yaml", omniwitness.ConfigLogs)
 	if b, err := os.ReadFile(repoRoot() + "/omniwitness/logs_test.yaml"); err == nil {
 		loadAndReport(t, "logs_test.yaml", b)
@@ -243,6 +284,47 @@ func scenarioCfgMap(t *traceWriter, rng *rand.Rand) {
 			o := defs[rng.Intn(len(defs))]
 			if o.key.signer != nil {
 				s.update(l.id, 0, signNote(cpText(o.origin, 5, tr.root(5)), o.key.signer), [][]byte{}, "class=cfgmap.otherOrigin")
+			}
+		}
+		// the same forged checkpoint (body edited, signature block untouched) from many clients at once: whatever the
+		// verifiers the configuration built remember or share, none of the submissions may be accepted
+		if ci%4 == 0 {
+			for _, l := range defs {
+				if l.key.signer == nil {
+					continue
+				}
+				// a refresh of what the log holds (size 4 after the sequential part), or a first use: the only thing
+				// standing between the forgery and acceptance is the signature check
+				oldSz := uint64(0)
+				if mustState(s, l.id) != nil {
+					oldSz = 4
+				}
+				good := signNote(cpText(l.origin, 4, tr.root(4), "ext-A"), l.key.signer)
+				forged := bytes.Replace(good, []byte("ext-A"), []byte("ext-B"), 1)
+				_, _ = note.Open(forged, note.VerifierList(l.rv)) // ground truth for the oracle
+				var mu sync.Mutex
+				accepted := 0
+				rounds := pick(60, 400)
+				for r := 0; r < rounds && accepted == 0; r++ {
+					var wg sync.WaitGroup
+					start := make(chan struct{})
+					for g := 0; g < 12; g++ {
+						wg.Add(1)
+						go func() {
+							defer wg.Done()
+							<-start
+							if _, err := s.w.Update(bgctx, l.id, oldSz, forged, [][]byte{}); err == nil {
+								mu.Lock()
+								accepted++
+								mu.Unlock()
+							}
+						}()
+					}
+					close(start)
+					wg.Wait()
+				}
+				s.t.line("UB %s log=%s cp=%s clients=%d => accepted=%d", s.id, hx([]byte(l.id)), hx(forged), 12*rounds, accepted)
+				break
 			}
 		}
 		s.end()
